@@ -39,10 +39,12 @@ class GroupAdditivityScheme(Scheme):
             If `signature` is specified and does not match the signature of
             the loaded data.
         """
-        self.patterns = patterns
-        self.pretreatment_rules = pretreatment_rules
-        self.remaps = remaps
-        self.other_descriptors = other_descriptors
+        # Copies: the default arguments are shared between all calls, and
+        # including another scheme extends these containers in place.
+        self.patterns = list(patterns)
+        self.pretreatment_rules = list(pretreatment_rules)
+        self.remaps = dict(remaps)
+        self.other_descriptors = list(other_descriptors)
         self.smiles_based_descriptors = smiles_based_descriptors
         self.smarts_based_descriptors = smarts_based_descriptors
         for scheme in include:
